@@ -474,6 +474,11 @@ impl<const N: usize> SlotManager<N> {
         }
 
         let l = if used.any() { n - done.count_ones() } else { 0 };
+        if l > max_l {
+            // more blocks missing than the parity slot can hold rows for: start_update never
+            // leaves such a state (handle_block refuses parity first), the flash is corrupt
+            return Ok(None);
+        }
 
         let complete = done.count_ones() == n;
 
